@@ -13,25 +13,25 @@ Import ListNotations.
 Open Scope Z_scope.
 
 (* ------------------------------------------------------------------ the cache facade *)
-Lemma lookup_remove_same k l : lookup k (remove k l) = None.
+Lemma lookup_remove_same k (l : ents) : lookup k (remove k l) = None.
 Proof.
   induction l as [|[k' v] l IH]; [reflexivity|]. cbn [remove].
   destruct (k' =? k) eqn:E; [exact IH|]. cbn [lookup]. rewrite E. exact IH.
 Qed.
-Lemma lookup_remove_other k k' l : k' <> k -> lookup k' (remove k l) = lookup k' l.
+Lemma lookup_remove_other k k' (l : ents) : k' <> k -> lookup k' (remove k l) = lookup k' l.
 Proof.
   intros Hne. induction l as [|[a v] l IH]; [reflexivity|]. cbn [remove lookup].
   destruct (a =? k) eqn:E.
   - apply Z.eqb_eq in E. subst a. replace (k =? k') with false by (symmetry; apply Z.eqb_neq; congruence). exact IH.
   - cbn [lookup]. rewrite IH. reflexivity.
 Qed.
-Lemma lookup_firstn k n l v : lookup k (firstn n l) = Some v -> lookup k l = Some v.
+Lemma lookup_firstn k n (l : ents) v : lookup k (firstn n l) = Some v -> lookup k l = Some v.
 Proof.
   revert l; induction n as [|n IH]; intros l H; [discriminate|].
   destruct l as [|[a w] l]; [discriminate|]. cbn [firstn lookup] in *.
   destruct (a =? k); [exact H | apply IH; exact H].
 Qed.
-Lemma lookup_trim k c l v : lookup k (trim c l) = Some v -> lookup k l = Some v.
+Lemma lookup_trim k c (l : ents) v : lookup k (trim c l) = Some v -> lookup k l = Some v.
 Proof. destruct c as [n|]; cbn [trim]; [apply lookup_firstn | auto]. Qed.
 
 (* Set: afterwards an entry is either the one just written or was there before *)
@@ -67,10 +67,10 @@ Lemma upd_other m k v x : x <> k -> upd m k v x = m x.
 Proof. intros H. unfold upd. replace (x =? k) with false by (symmetry; apply Z.eqb_neq; exact H). reflexivity. Qed.
 
 (* what a value-returning callback does to the key it is about, seen from that key only *)
-Inductive kstep (sv : option Z) : option Z -> sres -> Prop :=
+Inductive kstep (sv : val) : val -> sres -> Prop :=
   | ks_err e : e <> EDupKey -> kstep sv sv (SErr e)
-  | ks_read v : sv = Some v -> kstep sv sv (SOk v)
-  | ks_write v : kstep sv (Some v) (SOk v).
+  | ks_read v : sv = v -> kstep sv sv (SOk v)
+  | ks_write v : kstep sv v (SOk v).
 
 Lemma ferr_nodup f e : ferr f = Some e -> e <> EDupKey.
 Proof. destruct f; cbn; intros H; inversion H; discriminate. Qed.
@@ -78,10 +78,10 @@ Proof. destruct f; cbn; intros H; inversion H; discriminate. Qed.
 Lemma s_load_spec s f k : let '(s', r) := s_load s f k in s' = s /\ kstep (smap s k) (smap s' k) r.
 Proof.
   unfold s_load. destruct (ferr f) eqn:Ef; [split; [reflexivity | constructor; eapply ferr_nodup; eauto]|].
-  destruct (smap s k) eqn:E; (split; [reflexivity|]); rewrite E; [apply ks_read; reflexivity | constructor; discriminate].
+  destruct (smap s k) eqn:E.
+  - split; [reflexivity|]. rewrite E. apply ks_read. reflexivity.
+  - destruct (is_fnil f); (split; [reflexivity|]); rewrite E; [apply ks_read; reflexivity | constructor; discriminate].
 Qed.
-Lemma s_load_ok s f k v : snd (s_load s f k) = SOk v -> smap s k = Some v.
-Proof. unfold s_load. destruct (ferr f); [discriminate|]. destruct (smap s k); cbn; congruence. Qed.
 
 Definition frame (k : Z) (s s' : store) : Prop := forall x, x <> k -> smap s' x = smap s x.
 
@@ -89,52 +89,62 @@ Lemma s_write_frame s k v : frame k s (s_write s k v).
 Proof. intros x Hx. cbn. apply upd_other. exact Hx. Qed.
 Lemma s_write_at s k v : smap (s_write s k v) k = Some v.
 Proof. cbn. apply upd_same. Qed.
+Lemma s_unrow_frame s k : frame k s (s_unrow s k).
+Proof. intros x Hx. cbn. apply upd_other. exact Hx. Qed.
+Lemma s_unrow_at s k : smap (s_unrow s k) k = None.
+Proof. cbn. apply upd_same. Qed.
 Lemma frame_refl k s : frame k s s.
 Proof. intros x _. reflexivity. Qed.
 
-Lemma s_add_spec s f k d : let '(s', r) := s_add s f k d in frame k s s' /\ kstep (smap s k) (smap s' k) r /\ (match r with SOk _ => smap s k = None | _ => True end).
+Lemma s_add_spec s f k d : let '(s', r) := s_add s f k d in frame k s s' /\ kstep (smap s k) (smap s' k) r.
 Proof.
-  unfold s_add. destruct (ferr f) eqn:Ef; [split; [apply frame_refl | split; [constructor; eapply ferr_nodup; eauto | exact I]]|].
+  unfold s_add. destruct (ferr f) eqn:Ef; [split; [apply frame_refl | constructor; eapply ferr_nodup; eauto]|].
   destruct (smap s k) eqn:E.
-  - split; [apply frame_refl | split; [rewrite E; constructor; discriminate | exact I]].
-  - split; [apply s_write_frame | split; [rewrite s_write_at; constructor | reflexivity]].
+  - split; [apply frame_refl | rewrite E; constructor; discriminate].
+  - destruct (is_fnil f).
+    + split; [apply frame_refl | rewrite E; apply ks_read; reflexivity].
+    + split; [apply s_write_frame | rewrite s_write_at; constructor].
 Qed.
 Lemma s_upd_spec s f k d : let '(s', r) := s_upd s f k d in frame k s s' /\ kstep (smap s k) (smap s' k) r.
 Proof.
   unfold s_upd. destruct (ferr f) eqn:Ef; [split; [apply frame_refl | constructor; eapply ferr_nodup; eauto]|].
   destruct (smap s k) eqn:E.
-  - split; [apply s_write_frame | rewrite s_write_at; constructor].
+  - destruct (is_fnil f).
+    + split; [apply s_unrow_frame | rewrite s_unrow_at; constructor].
+    + split; [apply s_write_frame | rewrite s_write_at; constructor].
   - split; [apply frame_refl | rewrite E; constructor; discriminate].
 Qed.
 Lemma s_upsert_spec s f k d : let '(s', r) := s_upsert s f k d in frame k s s' /\ kstep (smap s k) (smap s' k) r.
 Proof.
   unfold s_upsert. destruct (ferr f) eqn:Ef; [split; [apply frame_refl | constructor; eapply ferr_nodup; eauto]|].
-  split; [apply s_write_frame | rewrite s_write_at; constructor].
+  destruct (is_fnil f).
+  - split; [apply s_unrow_frame | rewrite s_unrow_at; constructor].
+  - split; [apply s_write_frame | rewrite s_write_at; constructor].
 Qed.
 Lemma s_delete_spec s f k : let '(s', r) := s_delete s f k in frame k s s' /\
   match r with Some _ => s' = s | None => smap s' k = None end.
 Proof.
   unfold s_delete. destruct (ferr f); [split; [apply frame_refl | reflexivity]|].
-  split; [intros x Hx; cbn; apply upd_other; exact Hx | cbn; apply upd_same].
+  split; [apply s_unrow_frame | apply s_unrow_at].
 Qed.
 
 (* ------------------------------------------------------------------ safety of a handler program, followed at its key *)
-Definition I3 (cv sv cm : option Z) : Prop := forall v, cv = Some v -> sv = Some v \/ cm = Some v.
+Definition I3 (cv : option val) (sv cm : val) : Prop := forall v, cv = Some v -> sv = v \/ cm = v.
 
 (* the existing value handed to an update / upsert callback *)
-Definition pre_good (sv0 : option Z) (e : event) : Prop :=
+Definition pre_good (sv0 : val) (e : event) : Prop :=
   match e with
-  | EvUpd _ _ pre _ => sv0 = Some pre
+  | EvUpd _ _ pre _ => sv0 = pre
   | EvUpsert _ _ (Some pre) _ => sv0 = Some pre
   | _ => True
   end.
 
 (* k: the operation's key; sv0: the store's value for k when the operation began; cm: its value after the last
    completed operation; touched: a store callback has been made; cv / sv: cached and stored value now *)
-Fixpoint safe (k : Z) (sv0 cm : option Z) (p : prog) (touched : bool) (cv sv : option Z) {struct p} : Prop :=
+Fixpoint safe (k : Z) (sv0 cm : val) (p : prog) (touched : bool) (cv : option val) (sv : val) {struct p} : Prop :=
   I3 cv sv cm /\
   match p with
-  | Done r => (forall v, cv = Some v -> sv = Some v)
+  | Done r => (forall v, cv = Some v -> sv = v)
               /\ (r = RErr EDupKey -> touched = false)
               /\ (r = RNil -> cv = None /\ sv = None)
   | PGet k' c => k' = k /\ safe k sv0 cm (c cv) touched cv sv
@@ -143,7 +153,7 @@ Fixpoint safe (k : Z) (sv0 cm : option Z) (p : prog) (touched : bool) (cv sv : o
   | PDel k' c => k' = k /\ safe k sv0 cm c touched None sv
   | PLoad k' c => k' = k /\ forall r, kstep sv sv r -> safe k sv0 cm (c r) true cv sv
   | PAdd k' d c => k' = k /\ forall sv' r, kstep sv sv' r -> safe k sv0 cm (c r) true cv sv'
-  | PUpd k' d pre c => k' = k /\ sv = Some pre /\ sv0 = Some pre /\ forall sv' r, kstep sv sv' r -> safe k sv0 cm (c r) true cv sv'
+  | PUpd k' d pre c => k' = k /\ sv = pre /\ sv0 = pre /\ forall sv' r, kstep sv sv' r -> safe k sv0 cm (c r) true cv sv'
   | PUpsert k' d pre c => k' = k /\ (forall x, pre = Some x -> sv = Some x /\ sv0 = Some x)
                           /\ forall sv' r, kstep sv sv' r -> safe k sv0 cm (c r) true cv sv'
   | PDelete k' c => k' = k /\ forall r, (match r with Some e => e <> EDupKey | None => True end) ->
@@ -154,7 +164,7 @@ Lemma safe_I3 k sv0 cm p t cv sv : safe k sv0 cm p t cv sv -> I3 cv sv cm.
 Proof. destruct p; cbn [safe]; intros [H _]; exact H. Qed.
 
 Lemma kstep_inv sv sv' r : kstep sv sv' r ->
-  match r with SErr e => sv' = sv /\ e <> EDupKey | SOk v => sv' = Some v end.
+  match r with SErr e => sv' = sv /\ e <> EDupKey | SOk v => sv' = v end.
 Proof. intros H. destruct H; auto. Qed.
 
 Ltac leaf := intros; subst; try discriminate; try congruence; try (left; congruence); try (right; congruence); auto.
@@ -170,17 +180,17 @@ Ltac go := cbn [safe finish fail_or]; unfold I3;
   end.
 
 (* every handler is safe from every coherent start *)
-Theorem handler_safe o cv sv : (forall v, cv = Some v -> sv = Some v) ->
+Theorem handler_safe o cv sv : (forall v, cv = Some v -> sv = v) ->
   safe (key_of o) sv sv (handler o) false cv sv.
 Proof.
   intros Hc.
   destruct o as [k|k d|k d|k|k d|k d|k d]; cbn [handler key_of];
-    (destruct cv as [pre|]; [assert (Hsv : sv = Some pre) by auto; subst sv|]); clear Hc; go.
+    (destruct cv as [pre|]; [assert (Hsv : sv = pre) by auto; subst sv|]); clear Hc; go.
 Qed.
 
 (* ------------------------------------------------------------------ one call preserves safety *)
-Definition cview (s : wst) (k : Z) : option Z := c_peek (wc s) k.
-Definition sview (s : wst) (k : Z) : option Z := smap (wsr s) k.
+Definition cview (s : wst) (k : Z) : option val := c_peek (wc s) k.
+Definition sview (s : wst) (k : Z) : val := smap (wsr s) k.
 (* nothing appears in the cache under another key *)
 Definition cshrink (k : Z) (s s' : wst) : Prop := forall x v, x <> k -> cview s' x = Some v -> cview s x = Some v.
 
@@ -216,7 +226,7 @@ Proof.
     inversion Hm; subst; clear Hm. cbn [wc wsr touch is_store_ev ev_key pre_good].
     split; [apply Hs; exact Hk|]. split; [reflexivity|]. split; [exact I|]. split; [apply frame_refl|]. split; [intros x v _ Hx; exact Hx | reflexivity].
   - (* Add *) destruct Hs as (_ & -> & Hs). destruct (nextf fs) as [f fs1].
-    pose proof (s_add_spec (wsr s) f k d) as Hl. destruct (s_add (wsr s) f k d) as [st r]. destruct Hl as (Hf & Hk & _).
+    pose proof (s_add_spec (wsr s) f k d) as Hl. destruct (s_add (wsr s) f k d) as [st r]. destruct Hl as (Hf & Hk).
     inversion Hm; subst; clear Hm. cbn [wc wsr touch is_store_ev ev_key pre_good].
     split; [apply Hs; exact Hk|]. split; [reflexivity|]. split; [exact I|]. split; [exact Hf|]. split; [intros x v _ Hx; exact Hx | reflexivity].
   - (* Upd *) destruct Hs as (_ & -> & Hpre & Hpre0 & Hs). destruct (nextf fs) as [f fs1].
@@ -235,7 +245,7 @@ Proof.
       split; [apply (Hs (Some e0)); eapply ferr_nodup; eauto|]. split; [reflexivity|]. split; [exact I|]. split; [exact Hf|].
       split; [intros x v _ Hx; exact Hx | reflexivity].
     + destruct Hl as (Hf & Hn). inversion Hm; subst; clear Hm. cbn [wc wsr touch is_store_ev ev_key pre_good].
-      cbn [smap] in *. rewrite upd_same. split; [apply (Hs None); exact I|]. split; [reflexivity|]. split; [exact I|]. split; [exact Hf|].
+      rewrite s_unrow_at. split; [apply (Hs None); exact I|]. split; [reflexivity|]. split; [exact I|]. split; [exact Hf|].
       split; [intros x v _ Hx; exact Hx | reflexivity].
 Qed.
 
@@ -291,7 +301,7 @@ Qed.
 
 Lemma safe_exec k sv0 cm : forall p t s fs s' evs r,
   safe k sv0 cm p t (cview s k) (sview s k) -> exec p s fs = (s', evs, r) ->
-  (forall v, cview s' k = Some v -> sview s' k = Some v)
+  (forall v, cview s' k = Some v -> sview s' k = v)
   /\ frame k (wsr s) (wsr s') /\ cshrink k s s' /\ c_cap (wc s') = c_cap (wc s)
   /\ Forall (fun e => ev_key e = k) evs /\ Forall (pre_good sv0) evs
   /\ (r = RErr EDupKey -> t = false /\ no_store_ev evs = true)
@@ -314,7 +324,7 @@ Proof.
 Qed.
 
 (* ------------------------------------------------------------------ one worker, one whole operation *)
-Definition wcoh (s : wst) : Prop := forall k v, cview s k = Some v -> sview s k = Some v.
+Definition wcoh (s : wst) : Prop := forall k v, cview s k = Some v -> sview s k = v.
 
 Theorem handle_spec o s fs s' evs r : wcoh s -> exec (handler o) s fs = (s', evs, r) ->
   wcoh s'
@@ -387,7 +397,7 @@ Theorem do_op_spec c g o fs g' evs r : gok g -> do_op c g o fs = (g', evs, r) ->
   /\ (r = RNil -> cache_at c g' (key_of o) = None /\ store_at c g' (key_of o) = None)
   /\ (forall k d v, o = OAdd k d -> cache_at c g k = Some v ->
         r = RErr EDupKey /\ no_store_ev evs = true /\ store_at c g' k = store_at c g k)
-  /\ (forall k v, o = OGet k -> r = ROk v -> existsb is_load evs = false -> store_at c g k = Some v).
+  /\ (forall k v, o = OGet k -> r = ROk v -> existsb is_load evs = false -> store_at c g k = v).
 Proof.
   intros [Hg Hn] Hd. unfold do_op in Hd. set (w := loc_of c (key_of o)) in *.
   destruct (w <? 0) eqn:Ew.
@@ -455,7 +465,7 @@ Proof.
 Qed.
 
 Theorem seq_coherent c ops k v :
-  cache_at c (run_ops c (ginit c) ops) k = Some v -> store_at c (run_ops c (ginit c) ops) k = Some v.
+  cache_at c (run_ops c (ginit c) ops) k = Some v -> store_at c (run_ops c (ginit c) ops) k = v.
 Proof. intros H. destruct (run_ops_ok c ops (ginit c) (ginit_ok c)) as [Hc _]. apply (Hc (loc_of c k)). exact H. Qed.
 
 (* the clauses about single operations, in any state a history can reach *)
@@ -484,7 +494,8 @@ Theorem failed_callback_changes_nothing s f k d :
   /\ (forall e, snd (s_delete s f k) = Some e -> fst (s_delete s f k) = s).
 Proof.
   unfold s_load, s_add, s_upd, s_upsert, s_delete.
-  repeat split; intros e; destruct (ferr f); cbn; try reflexivity; try discriminate; destruct (smap s k); cbn; try reflexivity; discriminate.
+  repeat split; intros e; destruct (ferr f); cbn; try reflexivity; try discriminate;
+    destruct (smap s k); destruct (is_fnil f); cbn; try reflexivity; discriminate.
 Qed.
 
 (* ------------------------------------------------------------------ locHash *)
